@@ -194,7 +194,7 @@ with ThreadPoolExecutor(max_workers=2) as ex:
     exe, log = f1.result()
     exe_tsan, log_tsan = f2.result()
 stats = {"ok": 0, "rest_legit": 0, "spurious_runs": 0, "with_termination": 0, "le_returns": 0, "events": 0,
-         "model_skipped_direct_checks_only": 0, "tau_inserted": 0, "tau_skipped": 0}
+         "model_skipped_direct_checks_only": 0, "tau_inserted": 0, "tau_skipped": 0, "extra_notifications": 0}
 distinct = set()
 samples = []
 corr_broken = None
@@ -276,7 +276,7 @@ else:
                     if int(f.get("spur", "0")) > 0: stats["spurious_runs"] += 1
                     if f.get("term") == "1": stats["with_termination"] += 1
                     stats["le_returns"] += int(f.get("lers", "0"))
-                    stats["tau_inserted"] += int(f.get("tauins", "0")); stats["tau_skipped"] += int(f.get("tauskip", "0"))
+                    stats["tau_inserted"] += int(f.get("tauins", "0")); stats["tau_skipped"] += int(f.get("tauskip", "0")); stats["extra_notifications"] += int(f.get("xnotify", "0"))
                     if int(f.get("jobs", "0")) >= 1 and ev >= 30:
                         distinct.add(a if kind == "OK" else a[a.find(" TRACE "):])
                 if nviol >= 4: break
@@ -356,7 +356,7 @@ ck.finish({
             "pool mutex, wait-begin/-end and notify per condition-variable role, notify_one targets, spawn/join/end, job start/end, enqueue and call "
             "markers, the value seen at every loop_until_empty return) must be accepted event by event; loads/stores/RMWs of the bookkeeping atomics are "
             "internal steps (applied when they are the thread's next model step with the same value, skipped otherwise, inserted from the model state when a "
-            "visible event needs them: tau_inserted / tau_skipped; on the shipped statement order nothing is skipped, and a load is inserted only in the few runs where a counter is never written so that its role cannot be identified). The pool's objects are identified by role from the "
+            "visible event needs them: tau_inserted / tau_skipped / extra_notifications; which counter an access touches is resolved against the thread's pending model step; on the shipped code only the observers' own loads (done() after loop_until_empty etc.) are skipped and nothing is inserted). No property verdict is derived from an atomic access: counters are observed through the public API. The pool's objects are identified by role from the "
             "trace, no private member is named. A direct checker evaluates the property on the trace; rest states are classified. "
             "non-trivial = at least one job executed and >= 30 events; distinct = distinct event trace. In addition a real-thread stress program "
             "(no shim, -fsanitize=thread, pools of 1-8 threads, job trees / chains writing plain memory, two concurrent waiters, terminate from a job "
